@@ -79,6 +79,13 @@ func (l *Ledger) Snapshot() ([]Exec, []StreamRec, []string) {
 }
 
 // Running returns how many unary handlers and stream handlers have not exited.
+// NumExecs returns how many unary handler executions have been entered.
+func (l *Ledger) NumExecs() int {
+	l.mu.Lock()
+	defer l.mu.Unlock()
+	return len(l.Execs)
+}
+
 func (l *Ledger) Running() (unary, streams int) {
 	l.mu.Lock()
 	defer l.mu.Unlock()
